@@ -315,6 +315,47 @@ func (c *Conn) Events() []Event {
 // Since returns the time since the connection was created.
 func (c *Conn) Since() time.Duration { return time.Since(c.start) }
 
+// ArmedAfterLastWrite looks at the recorded order of operations: armed is true
+// if the last successful Write is followed by a successful SetReadDeadline and
+// the latest such call asked for a non-zero deadline; it then returns that
+// deadline and the completion time of that Write. wrote is false if nothing
+// has been written yet.
+func (c *Conn) ArmedAfterLastWrite() (armed bool, deadline, writeAt time.Time, wrote bool) {
+	c.mu.Lock()
+	defer c.mu.Unlock()
+	iw := -1
+	for i := len(c.events) - 1; i >= 0; i-- {
+		if e := c.events[i]; e.Kind == Write && e.Err == "" && e.N > 0 {
+			iw = i
+			break
+		}
+	}
+	if iw < 0 {
+		return false, time.Time{}, time.Time{}, false
+	}
+	writeAt = c.start.Add(c.events[iw].T)
+	for i := len(c.events) - 1; i > iw; i-- {
+		if e := c.events[i]; e.Kind == SetReadDeadline && e.Err == "" {
+			return !e.Deadline.IsZero(), e.Deadline, writeAt, true
+		}
+	}
+	return false, time.Time{}, writeAt, true
+}
+
+// WritesOKAfter counts the writes that transferred bytes successfully and
+// completed after t.
+func (c *Conn) WritesOKAfter(t time.Time) int {
+	c.mu.Lock()
+	defer c.mu.Unlock()
+	n := 0
+	for _, e := range c.events {
+		if e.Kind == Write && e.Err == "" && e.N > 0 && c.start.Add(e.T).After(t) {
+			n++
+		}
+	}
+	return n
+}
+
 func (f *Fault) String() string {
 	if f == nil {
 		return "none"
